@@ -183,6 +183,53 @@ pub fn check(case: &Case, _known: &Known) -> Outcome {
             return fail("Target::from_str rejects a dialect name", json!({"name": dn}));
         }
     }
+    // G: the staged entry point with an explicit main path (`pl_to_rq_tree`, as the CLI's `compile
+    // <file> - <main>` uses it): the header target of the program must reach the RQ whichever way the
+    // main pipeline is named (module path `[]`, or the pipeline itself `["main"]`)
+    {
+        let h0 = hash_of(p) as usize;
+        for k in 0..3 {
+            let (dn, d) = DIALECTS[(h0 / 11 + k * 5) % DIALECTS.len()];
+            let expect = &by_opt.iter().find(|(n, _)| *n == dn).unwrap().1;
+            let hsrc = with_header(&format!("sql.{dn}"));
+            for main_path in [vec![], vec!["main".to_string()]] {
+                let staged = |src: &str, opt: Option<prqlc::sql::Dialect>| -> String {
+                    let r = catch(|| -> Result<String, prqlc::ErrorMessages> {
+                        let pl = prqlc::prql_to_pl(src)?;
+                        let rq = prqlc::pl_to_rq_tree(pl, &main_path, &["default_db".to_string()])?;
+                        prqlc::rq_to_sql(rq, &if opt.is_some() { util::opts(opt) } else { util::opts(None).with_target(prqlc::Target::Sql(None)) })
+                    });
+                    match r {
+                        Ok(Ok(s)) => format!("OK {s}"),
+                        Ok(Err(e)) => format!("ERR {}", util::err_reasons(&e).join(" | ")),
+                        Err(pn) => format!("PANIC {}:{}", pn.file, pn.line),
+                    }
+                };
+                let got = staged(&hsrc, None);
+                // (the staged path may word an error differently; compared only when both produce SQL)
+                if got.starts_with("OK") && expect.starts_with("OK") && &got != expect && genuinely_different(&|| staged(&hsrc, None), &|| show(&util::compile(p, Some(d)))) {
+                    return fail(
+                        "header target is lost on the staged path with an explicit main path",
+                        json!({"source": p, "dialect": dn, "main_path": main_path, "by_option": expect, "staged_by_header": got}),
+                    );
+                }
+                if got.starts_with("OK") != expect.starts_with("OK") && !got.starts_with("PANIC") && main_path.is_empty() {
+                    return fail(
+                        "the staged path accepts / rejects a program differently from compile()",
+                        json!({"source": p, "dialect": dn, "main_path": main_path, "by_option": expect, "staged_by_header": got}),
+                    );
+                }
+            }
+            // unknown header on the staged path: an error, whichever main path
+            let bad = with_header("sql.nosuchdb");
+            for main_path in [vec![], vec!["main".to_string()]] {
+                let r = catch(|| prqlc::prql_to_pl(&bad).and_then(|pl| prqlc::pl_to_rq_tree(pl, &main_path, &["default_db".to_string()])).and_then(|rq| prqlc::rq_to_sql(rq, &util::opts(None).with_target(prqlc::Target::Sql(None)))));
+                if let Ok(Ok(sql)) = r {
+                    return fail("unknown header target is accepted on the staged path", json!({"source": p, "main_path": main_path, "sql": sql}));
+                }
+            }
+        }
+    }
     // F: the header never changes which programs the resolver accepts
     let accept = |src: &str| -> Option<bool> {
         catch(|| prqlc::prql_to_pl(src).and_then(prqlc::pl_to_rq).is_ok()).ok()
